@@ -51,6 +51,22 @@ macro_rules! vt_proof_pg_findspec {
         pub fn $name() $body
     };
 }
+/// Freelist harness: page-level stubs + the TrunkHeader zerocopy cast wrappers replaced by plain casts (c34.rs).
+#[macro_export]
+macro_rules! vt_proof_fl {
+    (unwind = $u:expr; fn $name:ident() $body:block) => {
+        #[cfg(kani)]
+        #[kani::proof]
+        #[kani::stub(eyre::capture_handler, $crate::common::stub_capture_handler)]
+        #[kani::stub(alloc::fmt::format, $crate::common::stub_format)]
+        #[kani::stub(<eyre::Report as core::ops::Drop>::drop, $crate::common::stub_report_drop)]
+        #[kani::stub(core::arch::x86_64::__cpuid_count, $crate::common::stub_cpuid_noavx)]
+        #[kani::stub(turdb::storage::TrunkHeader::from_bytes, $crate::c34::stub_trunk_from_bytes)]
+        #[kani::stub(turdb::storage::TrunkHeader::from_bytes_mut, $crate::c34::stub_trunk_from_bytes_mut)]
+        #[kani::unwind($u)]
+        pub fn $name() $body
+    };
+}
 /// Same, with the "AVX2" CPU model.
 #[macro_export]
 macro_rules! vt_proof_avx2 {
